@@ -244,7 +244,7 @@ void h_shape_concatenate(void){
   u64 an = ok ? (u64)norm_axis(ax, (i32)na) : 0;
   if (ok) for (u64 i = 0; i < 4; i++) if (i < na && i != an && a[i] != b[i]) ok = 0;
 #ifdef KF_C15_CONCATENATE_AXIS
-  ASSUME(axis_ok(ax, (i32)na) && ax >= 0);      /* excluded region: negative or out-of-range axis */
+  ASSUME(!(ax < 0 || ax >= (i32)na));           /* excluded region: negative or out-of-range axis (includes every call with 0-d operands) */
 #endif
   int r = k_shape_concatenate(a, na, b, nb, (u32)ax, o, &no);
   ASSERT((r != 0) == ok, "shape_concatenate succeeds iff np.concatenate accepts: same dim >= 1, axis in [-ndim, ndim), equal extents off the axis");
@@ -269,6 +269,9 @@ static int np_matmul_shape(const u64* a, u64 na, const u64* b, u64 nb, u64* e, u
 void h_shape_matmul(void){
   u64 a[4], b[4], o[4] = {0}, no = 0, e[5] = {0}, ne = 0;
   u64 na = in_shape(a), nb = in_shape(b);
+#ifdef KF_C15_MATMUL_0D
+  ASSUME(!(na == 0 || nb == 0));        /* excluded region: a 0-d operand (shape_matmul indexes the empty shape) */
+#endif
   int ok = np_matmul_shape(a, na, b, nb, e, &ne);
   int r = k_shape_matmul(a, na, b, nb, o, &no);
   ASSERT((r != 0) == ok, "shape_matmul has a value iff np.matmul accepts: no 0-d operand, contracted extents agree, batch axes broadcast");
